@@ -108,7 +108,7 @@ func pump[T any](ctx context.Context, ch <-chan T, reg *registry, msgs func(T) [
 	}()
 }
 
-func parentDriver(ctx context.Context, reg *registry) driver {
+func parentDriver(t *rapid.T, ctx context.Context, reg *registry) driver {
 	m := parentpb.NewModel()
 	names := []string{"c1", "c2", "c3"}
 	d := driver{name: "parent"}
@@ -162,7 +162,7 @@ func parentDriver(ctx context.Context, reg *registry) driver {
 	return d
 }
 
-func metadataDriver(ctx context.Context, reg *registry) driver {
+func metadataDriver(t *rapid.T, ctx context.Context, reg *registry) driver {
 	m := metadatapb.NewModel()
 	d := driver{name: "metadata"}
 	d.state = func() []proto.Message {
@@ -216,7 +216,7 @@ func metadataDriver(ctx context.Context, reg *registry) driver {
 	return d
 }
 
-func enterLeaveDriver(ctx context.Context, reg *registry) driver {
+func enterLeaveDriver(t *rapid.T, ctx context.Context, reg *registry) driver {
 	m := enterleavesensorpb.NewModel()
 	d := driver{name: "enterleave"}
 	d.state = func() []proto.Message {
@@ -261,7 +261,7 @@ func enterLeaveDriver(ctx context.Context, reg *registry) driver {
 	return d
 }
 
-func electricDriver(ctx context.Context, reg *registry) driver {
+func electricDriver(t *rapid.T, ctx context.Context, reg *registry) driver {
 	m := electricpb.NewModel()
 	d := driver{name: "electric"}
 	var ids []string
@@ -345,7 +345,7 @@ func electricDriver(ctx context.Context, reg *registry) driver {
 	return d
 }
 
-func vendingDriver(ctx context.Context, reg *registry) driver {
+func vendingDriver(t *rapid.T, ctx context.Context, reg *registry) driver {
 	m := vendingpb.NewModel()
 	d := driver{name: "vending"}
 	names := []string{"cola", "water"}
@@ -423,7 +423,7 @@ func vendingDriver(ctx context.Context, reg *registry) driver {
 	return d
 }
 
-func publicationDriver(ctx context.Context, reg *registry) driver {
+func publicationDriver(t *rapid.T, ctx context.Context, reg *registry) driver {
 	m := publicationpb.NewModel()
 	d := driver{name: "publication"}
 	ids := []string{"p1", "p2"}
@@ -475,8 +475,15 @@ func publicationDriver(ctx context.Context, reg *registry) driver {
 	return d
 }
 
-func hailDriver(ctx context.Context, reg *registry) driver {
-	m := hailpb.NewModel()
+func hailDriver(t *rapid.T, ctx context.Context, reg *registry) driver {
+	// hails that arrived are removed some time after (keep-alive, 30 s by default) by a pass that runs inside CreateHail:
+	// with a short keep-alive that pass runs in these histories too
+	var opts []resource.Option
+	keepAlive := time.Duration(rapid.SampledFrom([]int{-1, 30000, 0, 1, 3}).Draw(t, "keepAliveMs")) * time.Millisecond
+	if keepAlive != 30*time.Second {
+		opts = append(opts, hailpb.WithKeepAlive(keepAlive))
+	}
+	m := hailpb.NewModel(opts...)
 	d := driver{name: "hail"}
 	var ids []string
 	d.state = func() []proto.Message {
@@ -502,11 +509,18 @@ func hailDriver(ctx context.Context, reg *registry) driver {
 			}
 			in := lib.GenMessage(t, "hail", &traits.Hail{}, mgen).(*traits.Hail)
 			in.Id = rapid.SampledFrom(ids).Draw(t, "id")
-			in.State = traits.Hail_State(rapid.IntRange(1, 3).Draw(t, "state"))
-			if res, err := m.UpdateHail(in); err == nil {
+			in.State = traits.Hail_State(rapid.IntRange(1, 4).Draw(t, "state"))
+			var wopts []resource.WriteOption
+			if rapid.IntRange(0, 2).Draw(t, "stateOnly") == 1 {
+				wopts = append(wopts, resource.WithUpdatePaths("state")) // e.g. ARRIVED without an arrive time
+			}
+			if res, err := m.UpdateHail(in, wopts...); err == nil {
 				reg.observe("result", res)
 			}
 			reg.observe("input", in)
+		}},
+		{name: "time passes", readOnly: true, run: func(t *rapid.T, reg *registry) {
+			time.Sleep(time.Duration(rapid.IntRange(1, 5).Draw(t, "ms")) * time.Millisecond)
 		}},
 		{name: "ListHails", readOnly: true, run: func(t *rapid.T, reg *registry) {
 			for _, h := range m.ListHails() {
@@ -517,7 +531,7 @@ func hailDriver(ctx context.Context, reg *registry) driver {
 	return d
 }
 
-func bookingDriver(ctx context.Context, reg *registry) driver {
+func bookingDriver(t *rapid.T, ctx context.Context, reg *registry) driver {
 	m := bookingpb.NewModel()
 	d := driver{name: "booking"}
 	ids := []string{"b1", "b2"}
@@ -559,7 +573,7 @@ func bookingDriver(ctx context.Context, reg *registry) driver {
 	return d
 }
 
-var driverFns = map[string]func(context.Context, *registry) driver{
+var driverFns = map[string]func(*rapid.T, context.Context, *registry) driver{
 	"parent": parentDriver, "metadata": metadataDriver, "enterleave": enterLeaveDriver, "electric": electricDriver,
 	"vending": vendingDriver, "publication": publicationDriver, "hail": hailDriver, "booking": bookingDriver,
 }
@@ -569,7 +583,7 @@ func runModel(t *rapid.T, name string) {
 	ctx, cancel := context.WithCancel(context.Background())
 	defer cancel()
 	reg := newRegistry()
-	d := driverFns[name](ctx, reg)
+	d := driverFns[name](t, ctx, reg)
 	n := rapid.IntRange(5, 40).Draw(t, "steps")
 	var hist []string
 	pulls := 0
@@ -587,7 +601,7 @@ func runModel(t *rapid.T, name string) {
 		}
 		var panicked any
 		func() {
-			defer func() { panicked = recover() }()
+			defer func() { panicked = recover(); lib.RethrowRapid(panicked) }()
 			op.run(t, reg)
 		}()
 		hist = append(hist, op.name)
